@@ -261,6 +261,14 @@ P2P_GOALS = {
                                             {"a": "Pub", "s": "s1", "t": "p12", "c": "c1", "noecho": False, "chan": False},
                                             {"a": "Sub", "s": "s2", "t": "p12", "mode": ["-"], "chan": False, "bg": False},
                                             {"a": "Pub", "s": "s2", "t": "p12", "c": "c2", "noecho": False, "chan": False}]),
+    "p2p_unsubscribed_with_marks_live": ('st.topics["p12"].exists /\\ st.subs["p12"]["u1"].st = "del" /\\ st.subs["p12"]["u1"].read > 0 /\\ st.subs["p12"]["u2"].st = "live" '
+                                         '/\\ st.cache["p12"].loaded /\\ st.cache["p12"].att # <<>>',
+                                         [{"a": "Sub", "s": "s1", "t": "p12", "mode": ["-"], "chan": False, "bg": False},
+                                          {"a": "Get", "s": "s1", "t": "p12", "what": "desc sub", "since": 0, "before": 0, "limit": 0, "chan": False},
+                                          {"a": "Note", "s": "s1", "t": "p12", "what": "read", "seq": 1, "chan": False},
+                                          {"a": "Note", "s": "s1", "t": "p12", "what": "recv", "seq": 1, "chan": False},
+                                          {"a": "Reload", "t": "p12"},
+                                          {"a": "Get", "s": "s1", "t": "p12", "what": "desc sub", "since": 0, "before": 0, "limit": 0, "chan": False}]),
     "p2p_member_detached": ('st.topics["p12"].exists /\\ st.subs["p12"]["u1"].st = "live" /\\ st.subs["p12"]["u2"].st = "live" '
                             '/\\ "p12" \\notin M(st.sess["s1"].subs) /\\ st.cache["p12"].loaded',
                             [{"a": "SetSelf", "s": "s1", "t": "p12", "mode": ["J", "R", "W", "P"], "chan": False},
